@@ -50,6 +50,11 @@ BOUNDED = {
         statement="for a valid document the generated classes and their properties do not depend on the order of "
                   "components.schemas (parents after children, forward references, single-reference wrappers)",
         bound="two families of 4 schemas, all 24 orders each"),
+    "response_type": dict(
+        unit="openapi_python_client.parser.openapi:Endpoint.response_type", where="openapi_python_client/parser/openapi.py",
+        statement="the return annotation of an operation admits the type of each documented response (it is that type, a Union "
+                  "naming it, or Any)",
+        bound="all sequences of 0-3 response types over 5 type strings incl. Any (156 cases)"),
     "schema_accounting": dict(
         unit=P + "properties:_create_schemas / _process_models (component accounting)", where="openapi_python_client/parser/properties/__init__.py",
         statement="every object / enumeration component is a generated class or is named by a diagnostic, whatever the order "
